@@ -50,10 +50,16 @@ class Run:
     def rule(self, rule_id: str, doc: str) -> None:
         self.rule_docs[rule_id] = " ".join(doc.split())
 
+    @staticmethod
+    def _orig(fi):
+        """a normalised view of a function (sa.normalise) is reported as the function it stands for"""
+        return getattr(fi, "__dict__", {}).get("_unrolled_from", fi) if fi is not None else None
+
     def touch(self, fi: FuncInfo) -> None:
-        self.functions_analysed.add(fi.qual)
+        self.functions_analysed.add(self._orig(fi).qual)
 
     def ok(self, rule: str, fi: Optional[FuncInfo], what: str, detail: str = "") -> None:
+        fi = self._orig(fi)
         if fi is not None:
             self.touch(fi)
         self.obligations.append(dict(rule=rule, construct=fi.qual if fi else "", what=what, verdict="discharged", detail=detail[:400]))
@@ -61,6 +67,7 @@ class Run:
     def fail(self, rule: str, fi: Optional[FuncInfo], node: Optional[ast.AST], message: str, expected: str = "", term: str = "", what: str = "", key: str = "") -> None:
         """key: a stable identification of the offending instance inside the construct, used instead of the
         statement text when the rule can name the instance independently of how the statement is written."""
+        fi = self._orig(fi)
         if fi is not None:
             self.touch(fi)
         construct = fi.qual if fi else ""
